@@ -101,7 +101,7 @@ class C04(Sim):
     PROP = "C04"
     RULE = ("one run = a pool of 1-3 meshes and one simulated file system; saver / loader / cross-reader / cross-writer / querier / config clients under a "
             "seeded scheduler; distinct = distinct (mesh kinds, (operation, format, switches) sequence); non-trivial = >= 1 file saved or planted and >= 1 load or cross-read judged")
-    FAULT_KINDS = ["lexical", "config_flip"]
+    FAULT_KINDS = ["lexical", "config_flip", "reject"]
     PROBES = ["wild_coordinates", "polygon_to_triangle_format", "attributes_roundtrip", "query_before_save", "resave_after_load", "stl", "hex", "export_edges_off",
               "crlf", "comments", "exp_floats", "no_final_newline", "cross_read", "cross_write_load", "save_load", "overwrite", "faceless_stl", "ignore_elements"]
     QUICK_RUNS = 2500
@@ -233,10 +233,13 @@ class C04(Sim):
 
     def propose(self, rng):
         cfg = self.cfg
-        names = list(cfg["clients"]) + (["config"] if (cfg["faults_on"] and cfg["flip_rate"] > 0) else [])
-        weights = [2, 2, 1.5, 2] + ([1] if "querier" in cfg["clients"] else []) + ([cfg["flip_rate"] * 4] if "config" in names else [])
+        names = list(cfg["clients"]) + (["config"] if (cfg["faults_on"] and cfg["flip_rate"] > 0) else []) + (["rejector"] if cfg["faults_on"] else [])
+        weights = [2, 2, 1.5, 2] + ([1] if "querier" in cfg["clients"] else []) + ([cfg["flip_rate"] * 4] if "config" in names else []) + ([0.6] if cfg["faults_on"] else [])
         c = self.pick_client(rng, names, weights, cfg["burst"])
         r = self.client_rng(c)
+        if c == "rejector":
+            # fault 'reject': calls the API must refuse (unknown extension, missing file).  Nothing may be written, no mesh may change
+            return {"c": c, "op": r.choice(["save_unknown_ext", "load_missing", "load_unknown_ext"]), "m": r.below(self._targets())}
         if c == "config":
             k = r.choice(["export_edges_in_obj", "export_edges_in_obj", "complete_edges_from_faces"])
             return {"c": c, "op": "flip", "key": k, "value": not self.sw[k]}
@@ -268,6 +271,8 @@ class C04(Sim):
 
     def applicable(self, ev):
         op = ev["op"]
+        if op in ("save_unknown_ext", "load_missing", "load_unknown_ext"):
+            return ev["m"] < self._targets()
         if op in ("save", "plant", "query"):
             if ev["m"] >= self._targets():
                 return False
@@ -376,6 +381,21 @@ class C04(Sim):
             if not ev["value"]:
                 self.probes["export_edges_off"] += 1
             return "flipped"
+        if op in ("save_unknown_ext", "load_missing", "load_unknown_ext"):
+            m = self._mesh(ev["m"])
+            before, nfiles, nwrites = self.snapshot(m), len(self.fs.files), self.fs.writes
+            if op == "save_unknown_ext":
+                o = call(M.mesh.save, m, self.fs.root + "bad%d.xyz3" % self.nfile)
+            elif op == "load_missing":
+                o = call(M.mesh.load, self.fs.root + "missing%d.obj" % self.nfile)
+            else:
+                o = call(M.mesh.load, self.fs.root + "bad%d.foo" % self.nfile)
+            self.faults["reject"] += 1
+            if o.ok:
+                self.violation("reject", op, "wrong_value", op, "", "a call that must be refused returned %r" % (type(o.value).__name__,))
+            if self.snapshot(m) != before or len(self.fs.files) != nfiles or self.fs.writes != nwrites:
+                self.violation("reject", op, "state_corrupted", op, "", "a refused call changed the mesh or wrote a file")
+            return "rejected"
         if op == "query":
             m = self._mesh(ev["m"])
             self.probes["query_before_save"] += 1
